@@ -104,6 +104,33 @@ impl RNum {
             RNum::F(_) => None,
         }
     }
+    /// "exact or absent, never a different value": an integer that fits must be present and exact, one
+    /// that does not fit must be absent; for a float the documents leave open whether an integral
+    /// value is offered as an integer, so both None and the exact integer are admissible
+    pub fn view_i64_admissible(&self, got: Option<i64>) -> bool {
+        match *self {
+            RNum::F(b) => match got {
+                None => true,
+                Some(x) => {
+                    let f = f64::from_bits(b);
+                    f.is_finite() && f.fract() == 0.0 && f.abs() < 1e30 && f as i128 == x as i128
+                }
+            },
+            _ => got == self.view_i64(),
+        }
+    }
+    pub fn view_u64_admissible(&self, got: Option<u64>) -> bool {
+        match *self {
+            RNum::F(b) => match got {
+                None => true,
+                Some(x) => {
+                    let f = f64::from_bits(b);
+                    f.is_finite() && f.fract() == 0.0 && f.abs() < 1e30 && f as i128 == x as i128
+                }
+            },
+            _ => got == self.view_u64(),
+        }
+    }
     pub fn view_u64(&self) -> Option<u64> {
         match *self {
             RNum::U(u) => Some(u),
